@@ -8,7 +8,7 @@ from vf.runner import Ctx
 # environments whose jitted step is cheap get proportionally more episodes (rare-event coverage, e.g. a Snake
 # fruit spawning under the head needs many eaten fruits)
 CHEAP = {"Snake": 4, "Knapsack": 2, "TSP": 2, "CVRP": 2, "Maze": 2, "Game2048": 2, "Minesweeper": 2,
-         "SlidingTilePuzzle": 2, "GraphColoring": 2, "Tetris": 2, "Cleaner": 2, "Sokoban": 3, "MMST": 3, "MultiCVRP": 4}
+         "SlidingTilePuzzle": 2, "GraphColoring": 2, "Tetris": 2, "Cleaner": 2, "Sokoban": 3, "MMST": 6, "MultiCVRP": 4, "RobotWarehouse": 3}
 
 
 def work_items(env_names, tier, flt, n_quick, n_thorough, cost=None):
